@@ -38,7 +38,8 @@ type Config struct {
 
 	Plan []Action `json:"plan"`
 
-	Hostile bool `json:"hostile,omitempty"`
+	Hostile    bool `json:"hostile,omitempty"`     // some plugin answers with hostile shapes
+	HostileSrc bool `json:"hostile_src,omitempty"` // ... including sources (positions ambiguous)
 	// Healthy: no injected faults, every outcome tolerated: exact drain / liveness oracles apply.
 	Healthy bool `json:"healthy,omitempty"`
 	Gates   int  `json:"gates_pct,omitempty"` // percentage of gate sites armed
@@ -49,6 +50,7 @@ type SrcCfg struct {
 	NRec     int       `json:"nrec"`
 	MaxBatch int       `json:"max_batch"`
 	Pruning  bool      `json:"pruning,omitempty"`
+	HostilePct int     `json:"hostile_pct,omitempty"`
 	Procs    []ProcCfg `json:"procs,omitempty"`
 }
 
@@ -56,6 +58,7 @@ type DstCfg struct {
 	ID          string    `json:"id"`
 	NackPct     int       `json:"nack_pct,omitempty"`
 	MaxAckBatch int       `json:"max_ack_batch"`
+	HostilePct  int       `json:"hostile_pct,omitempty"`
 	Procs       []ProcCfg `json:"procs,omitempty"`
 }
 
